@@ -544,7 +544,15 @@ def rule_live_config(ctx):
     r(ctx)
 
 
+def rule_char_eq_exact(ctx):
+    """The optimal score over real alignments rest on `haystack_char == needle_char` being exact code point equality for every pair of character
+    types (shared with C01.char-eq-exact)."""
+    from props.c01 import rule_char_eq_exact as r
+    r(ctx)
+
+
 def rules(ctx):
+    ctx.run_rule("C04.char-eq-exact", rule_char_eq_exact)
     ctx.run_rule("C04.live-config", rule_live_config)
     ctx.run_rule("C04.prev-class", rule_prev_class)
     ctx.run_rule("C04.early-exit", rule_early_exit)
